@@ -10,8 +10,8 @@ import (
 )
 
 func init() {
-	register(&Rule{Name: "LINT-READ", Floor: 0, Run: ruleLintRead, Fixture: "fixture.singleRead",
-		Doc: "no single Read call on an io.Reader outside a loop whose byte count slices the buffer that is then used as the complete data (a Read may return fewer bytes than available)"})
+	register(&Rule{Name: "LINT-READ", Floor: 0, Run: ruleLintRead, Fixture: "fixture.singleRead,fixture.readsOnlyTheStart",
+		Doc: "no single Read call on an io.Reader outside a loop whose byte count slices the buffer that is then used as the complete data (a Read may return fewer bytes than available); what io.Copy and io.ReadAll consume is the stream itself, not a wrapper that stops early (io.LimitReader, a SectionReader, a sized bufio.Reader), and nothing is copied with io.CopyN: a longer document is never cut off without a word"})
 	register(&Rule{Name: "LINT-RELIDX", Floor: 0, Run: ruleLintRelIdx, Fixture: "fixture.relativeIndex",
 		Doc: "an index obtained from Index*(s[lo:], …) is relative to lo; it must not be used to slice or index s itself without adding lo"})
 	register(&Rule{Name: "LINT-NARROW", Floor: 0, Run: ruleLintNarrow, Fixture: "fixture.narrow",
@@ -87,6 +87,59 @@ func ruleLintRead(c *Ctx, r *Rep) {
 		}
 	}
 	r.Infof("%d direct Read calls in module code", n)
+	// a stream is read to its end: what io.Copy / io.ReadAll consume is the stream itself, not a wrapper that stops early,
+	// and nothing in the module copies a fixed count out of a stream
+	limited := func(v ssa.Value) string {
+		for i := 0; i < 4; i++ {
+			switch x := v.(type) {
+			case *ssa.MakeInterface:
+				v = x.X
+				continue
+			case *ssa.ChangeInterface:
+				v = x.X
+				continue
+			case *ssa.Call:
+				switch name := calleeFullName(x); name {
+				case "io.LimitReader", "io.NewSectionReader", "bufio.NewReaderSize":
+					return name
+				}
+			case *ssa.Alloc:
+				if n, ok := x.Type().Underlying().(*types.Pointer).Elem().(*types.Named); ok && n.Obj().Pkg() != nil && n.Obj().Pkg().Path() == "io" && (n.Obj().Name() == "LimitedReader" || n.Obj().Name() == "SectionReader") {
+					return "io." + n.Obj().Name()
+				}
+			}
+			break
+		}
+		return ""
+	}
+	for _, fn := range c.Funcs {
+		k := 0
+		for _, ci := range callsIn(fn) {
+			name := calleeFullName(ci)
+			args := ci.Common().Args
+			var src ssa.Value
+			switch name {
+			case "io.Copy", "io.CopyBuffer":
+				if len(args) >= 2 {
+					src = args[1]
+				}
+			case "io.ReadAll", "io/ioutil.ReadAll":
+				if len(args) >= 1 {
+					src = args[0]
+				}
+			case "io.CopyN":
+				k++
+				r.Bad(sprintf("whole-stream|%s#%d", c.FuncKey(fn), k), c.Pos(ci.Pos()), "a stream is read to its end", "io.CopyN stops after a fixed count; what lies behind is dropped without a word")
+				continue
+			}
+			if src == nil {
+				continue
+			}
+			k++
+			w := limited(src)
+			r.Check(w == "", sprintf("whole-stream|%s#%d", c.FuncKey(fn), k), c.Pos(ci.Pos()), "what "+name+" consumes is the stream itself (read to its end), not a wrapper that stops early", okOr(w == "", "the stream itself", "wrapped by "+w+": a longer input is cut off without a word"))
+		}
+	}
 }
 
 func isIndexFunc(name string) bool {
